@@ -8,6 +8,8 @@ import (
 	"go/ast"
 	"go/constant"
 	"go/types"
+
+	"golang.org/x/tools/go/types/typeutil"
 	"sort"
 	"strings"
 )
@@ -186,6 +188,7 @@ func checkC02(c *Check) {
 		}
 		c.add("O-C02.6", "local signer keeps the leaf's key spec, the key and the chain", "the signer reports the key spec extracted from the leaf certificate", good, posOf(pg, ok))
 	}
+	headerNameDifferential(c)
 }
 
 // likeNamed: last path component suffix after a prefix.
@@ -439,5 +442,75 @@ func coseTables(c *Check) {
 			}
 			c.add("O-C02.2", "COSE hash switch agrees with Algorithm.Hash under the map", "the COSE hash switch has exactly the three hash rows of the reference table", len(okNodes) == 3, c.P.pos(fs.Decl.Pos()))
 		}
+	}
+}
+
+// headerNameDifferential: O-C02.5. The JWT library reads the header member
+// named exactly "alg"; encoding/json fills the protected-header struct by
+// case-insensitive name matching (last match wins). The declared algorithm the
+// library compares with the leaf key is therefore the one verification uses
+// only if the decoder refuses members that differ from a specification name by
+// case alone.
+func headerNameDifferential(c *Check) {
+	var target *FuncSrc
+	var names []string
+	for _, fs := range c.P.productFuncs() {
+		if !strings.HasSuffix(fs.Pkg.PkgPath, "/signature/jws") {
+			continue
+		}
+		info := fs.Pkg.TypesInfo
+		ast.Inspect(fs.Decl.Body, func(n ast.Node) bool {
+			call, ok := n.(*ast.CallExpr)
+			if !ok || len(call.Args) != 2 {
+				return true
+			}
+			fn, ok := typeutil.Callee(info, call).(*types.Func)
+			if !ok || fn.FullName() != "encoding/json.Unmarshal" {
+				return true
+			}
+			pt, ok := info.TypeOf(call.Args[1]).Underlying().(*types.Pointer)
+			if !ok {
+				return true
+			}
+			js := jsonNames(pt.Elem())
+			for _, n := range js {
+				if n == "alg" {
+					target, names = fs, js
+				}
+			}
+			return true
+		})
+	}
+	if target == nil {
+		c.undecided("O-C02.5", "JWS protected header decoder", "no json.Unmarshal into a struct with a member named alg found in the jws package", "")
+		return
+	}
+	name := c.P.abbrev(target.Obj.FullName())
+	pg := c.pgOf(name)
+	if pg == nil {
+		return
+	}
+	ok := returnsWhere(pg, func(s *PState) bool { return retNilErr(s, 1) })
+	c.floor("protected header decoder success returns", 1, len(ok))
+	// the loop over the raw member names: the range whose key is compared by EqualFold
+	X := ""
+	for _, a := range pg.AtomSet() {
+		if strings.HasPrefix(a, "+EqFold(\"alg\", rk(") {
+			X = strings.TrimSuffix(strings.TrimPrefix(a, "+EqFold(\"alg\", rk("), "))")
+		}
+	}
+	where := c.P.pos(target.Decl.Pos())
+	if X == "" {
+		c.add("O-C02.5", "JWS: header member names are screened for case variants", "the decoder of the protected header examines the raw member names for look-alikes of \"alg\" (encoding/json would accept \"Alg\" for the struct while the JWT library reads \"alg\": the algorithm compared with the leaf key would not be the one used for verification)", false, where, "no comparison of a raw member name with \"alg\" under strings.EqualFold found in "+name)
+		return
+	}
+	c.onlyAfterExhaustion(pg, "O-C02.5", "JWS: all raw member names examined", "returning the decoded protected header", X, ok)
+	for _, n := range names {
+		if n == "ExtendedAttributes" || n == "-" {
+			continue
+		}
+		rule := "O-C02.5"
+		q := `"` + n + `"`
+		c.perIteration(pg, rule, "JWS: no case variant of header "+n, "every raw member name is exactly "+n+" or does not fold to it", X, AnyOf(A("+Eq("+q+", rk("+X+"))"), A("-EqFold("+q+", rk("+X+"))")))
 	}
 }
